@@ -106,7 +106,9 @@ func splitArgs(args []string, maxLen int) []string {
 // debugging purposes but may well come in handy.
 func (conn *Conn) Raw(rawline string) {
 	// Avoid command injection by enforcing one command per line.
+	vhook("raw.enq.begin", conn, rawline)
 	conn.out <- cutNewLines(rawline)
+	vhook("raw.enq.end", conn, rawline)
 }
 
 // Pass sends a PASS command to the server.
